@@ -282,11 +282,22 @@ fn g_small(t: i64) -> i64 {
 // =============================================================================================
 pub fn states(tr: &mut Tr, g: &mut G) {
     let (p, v, a) = (g.val(1e3), g.val(1e3), g.val(1e2));
-    let s0 = State::new(
-        Quantity::new(p, MILLIMETER),
-        Quantity::new(v, MILLIMETER_PER_SECOND),
-        Quantity::new(a, MILLIMETER_PER_SECOND_SQUARED),
-    );
+    let s0 = match catch(|| {
+        State::new(
+            Quantity::new(p, MILLIMETER),
+            Quantity::new(v, MILLIMETER_PER_SECOND),
+            Quantity::new(a, MILLIMETER_PER_SECOND_SQUARED),
+        )
+    }) {
+        Some(s) => {
+            tr.w("state.new.outcome", "ok");
+            s
+        }
+        None => {
+            tr.w("state.new.outcome", "panic");
+            State::new_raw(p, v, a)
+        }
+    };
     let dts = [
         g.range(-100_000_000_000, 100_000_000_000),
         g.step(1, 10_000_000_000),
